@@ -12,6 +12,8 @@ var checks = map[string]func(*lib.Run){
 	"C01": lib.CheckC01,
 	"C02": lib.CheckC02,
 	"C03": lib.CheckC03,
+	"C04": lib.CheckC04,
+	"C05": lib.CheckC05,
 	"C06": lib.CheckC06,
 	"C11": lib.CheckC11,
 	"C12": lib.CheckC12,
